@@ -306,7 +306,7 @@ func genPacket(r *vlib.R, labels []string, qtype, qclass uint16, weird bool) pkt
 // ---------------------------------------------------------------- generator
 
 var scenarios = []string{"pos", "pos", "two", "cn1", "cn2", "cn3", "cnf1", "cnx1", "cns1", "cnl1", "sig", "sig", "cng", "cnu", "cnu", "nx", "nxs", "nd", "ede", "edn",
-	"big", "mid", "cnb", "sf", "sfe", "ref", "tc", "aa", "nil", "zzz"}
+	"big", "mid", "cnb", "cnr", "cnr", "sf", "sfe", "ref", "tc", "aa", "nil", "zzz"}
 
 func uniq(r *vlib.R, k *int) string {
 	*k++
@@ -437,6 +437,9 @@ func genQ1(r *vlib.R, k *int, cfgLine string) (string, string, uint16, uint16, b
 	if scn == "big" || scn == "mid" || scn == "cnb" {
 		qt = 16
 	}
+	if scn == "cnr" {
+		qt = vlib.Pick(r, []int{12, 12, 15, 2, 33, 6, 1, 16})
+	}
 	args := []string{}
 	add := func(k string, v any) { args = append(args, fmt.Sprintf("%s=%v", k, v)) }
 	// special names: hosts file, empty zones, deep names under a cut
@@ -521,6 +524,10 @@ func genQ1(r *vlib.R, k *int, cfgLine string) (string, string, uint16, uint16, b
 	add("warm", warm)
 	if warm != "none" {
 		add("shift", vlib.Pick(r, []int{0, 7, 100, 100, 150, 170}))
+	}
+	if r.Chance(1, 12) {
+		// the packet waited in the engine's queue: within / beyond the 3 s query budget
+		add("age", vlib.Pick(r, []int{1000, 2500, 3500, 5000, 60000}))
 	}
 	add("rep", vlib.Pick(r, []int{1, 1, 2, 3, 5}))
 	add("ord", r.Intn(4))
@@ -674,7 +681,7 @@ func gen(r *vlib.R, n int, tier string, emit func(string)) {
 		} else {
 			hops = append(hops, fmt.Sprintf("%s:%d:%d:0", last, r.Intn(4)/3^1, vlib.Pick(r, []int{60, 300, 5})))
 		}
-		emit(fmt.Sprintf("ch run qt=%d cd=%d el=%d hops=%s", vlib.Pick(r, []int{1, 1, 1, 15}), b2i(r.Chance(1, 4)),
+		emit(fmt.Sprintf("ch run qt=%d cd=%d el=%d hops=%s", vlib.Pick(r, []int{1, 1, 1, 15, 12, 12, 2, 33, 28, 16, 43}), b2i(r.Chance(1, 4)),
 			vlib.Pick(r, []int{400, 400, 7500, 5300, 100300, 250700}), strings.Join(hops, ",")))
 	}
 	zonePool := []string{"10.in-addr.arpa.", "168.192.in-addr.arpa.", "5.10.IN-ADDR.arpa.", "16.172.in-addr.arpa.", "d.f.ip6.arpa.", "8.e.f.ip6.ARPA.", "254.169.in-addr.arpa."}
@@ -718,6 +725,9 @@ func gen(r *vlib.R, n int, tier string, emit func(string)) {
 							emit(fmt.Sprintf("lad run ex=%d cut=%d fail=%s cd=%d %s nm=%s", ex, cut, fail, cd, cl, uniq(r, &k)))
 							budget--
 						}
+						// the packet waited in the queue past / within the 3 s query budget
+						emit(fmt.Sprintf("lad run ex=%d cut=%d fail=%s cd=%d do=0 small=0 age=%d nm=%s", ex, cut, fail, cd, vlib.Pick(r, []int{1000, 2900, 3100, 10000}), uniq(r, &k)))
+						budget--
 						// an NSEC3 proof covers the name (aggressive denial precedes failure state on the decoded
 						// ladder; a failure over an NSEC3 zone has no miss witness)
 						if r8198 == 1 && cut == 0 && ex == 0 {
